@@ -258,9 +258,14 @@ class SqlEngine:
     def explore(self, fn: Callable[[], Any]) -> List[SqlPath]:
         results: List[SqlPath] = []
         prefix: List[Tuple[int, int]] = []
+        import time as _time
+        budget = getattr(self, "cpu_budget", None)      # CPU seconds of this process (independent of machine load)
+        t0 = _time.process_time()
         while True:
             if len(results) >= self.max_paths:
                 raise SqlOutside(f"more than {self.max_paths} paths")
+            if budget is not None and _time.process_time() - t0 > budget:
+                raise SqlOutside(f"exploration budget of {budget} CPU seconds used up after {len(results)} paths")
             self.pc, self.prefix, self.decisions = [], prefix, []
             try:
                 v = fn()
